@@ -208,6 +208,19 @@ theorem quote_cache_transparent (p : Prep) (ops : List (Option Bool × Str)) :
     quoteSeq p [] ops = ops.map (fun op => quote p op.1 op.2) :=
   quoteSeq_spec p ops [] (cacheOK_nil p)
 
+/-! ## case-folding dialects: `normalize_name` / `denormalize_name` -/
+
+/-- **denormalize_normalize** — for every ASCII name `X` as a case-folding server
+    (Oracle style) reports it — reserved words, names with illegal initial characters,
+    upper, lower and mixed case — `denormalize_name(normalize_name(X))` is `X` again:
+    the name SQLAlchemy hands back to catalog queries is the one the server stored.
+    (`denormalize_normalize_gen` states it for any name under the two case-map
+    identities `lower∘lower = lower`, `upper∘lower = upper`.) -/
+theorem denormalize_normalize (p : Prep) (X n : Str) (f : Option Bool)
+    (hX : ∀ c ∈ X, c < 128) (h : normalizeName p X = some (n, f)) :
+    denormalizeName p f n = some X :=
+  denormalize_normalize_ascii p X n f hX h
+
 /-! ## instantiation for the shipped dialects (regenerated tables) -/
 
 def allPreps : List Prep :=
@@ -336,5 +349,12 @@ example : quoteSeq sqlite [] [(none, ofS "a b"), (some false, ofS "a b"), (none,
     = [some (ofS "\"a b\""), some (ofS "a b"), some (ofS "\"a b\"")] := by decide +kernel
 example : lexIdent (Backends.oracle []) (ofS "abc ") = some (ofS "ABC", ofS " ") := by
   decide +kernel
+-- normalize_name: all-upper plain name folds to lower, reserved words and illegal initials do not
+example : normalizeName sqlite (ofS "ABC") = some (ofS "abc", none) := by decide +kernel
+example : normalizeName sqlite (ofS "ORDER") = some (ofS "ORDER", none) := by decide +kernel
+example : normalizeName sqlite (ofS "1ABC") = some (ofS "1ABC", none) := by decide +kernel
+example : normalizeName sqlite (ofS "abc") = some (ofS "abc", some true) := by decide +kernel
+example : denormalizeName sqlite none (ofS "abc") = some (ofS "ABC") := by decide +kernel
+example : denormalizeName sqlite (some true) (ofS "abc") = some (ofS "abc") := by decide +kernel
 
 end SaVerif.Props.C06
